@@ -353,3 +353,159 @@ Proof.
       rewrite Rn in W. cbn in W. destruct o; auto.
     + subst o. cbn. left. exact Iw.
 Qed.
+
+(* ---------------------------------------------------------------------- *)
+(* dropping a send stream closes it towards the peer                        *)
+
+Theorem send_drop_closes st :
+  closed_towards_peer (fst (send_drop false st)) = true /\
+  (closed_towards_peer st = false -> snd (send_drop false st) = true) /\
+  (forall c, st = SStopped c -> fst (send_drop false st) = SReset c).
+Proof.
+  destruct st; cbn; repeat split; auto; try discriminate; intros c0 H; inversion H; reflexivity.
+Qed.
+
+(* ---------------------------------------------------------------------- *)
+(* read_to_end returns exactly the bytes between the lowest offset delivered
+   and the end of the stream                                               *)
+
+From Compio.Thm Require Import ListFacts.
+
+Lemma nth_firstn_lt {A} (l : list A) n i d : i < n -> nth i (firstn n l) d = nth i l d.
+Proof.
+  revert n i. induction l as [|a l IH]; intros n i H.
+  - rewrite firstn_nil. reflexivity.
+  - destruct n; [lia|]. destruct i; cbn; auto. apply IH. lia.
+Qed.
+
+Lemma nth_skipn_add {A} (l : list A) k i d : nth i (skipn k l) d = nth (k + i) l d.
+Proof.
+  revert l. induction k as [|k IH]; intros l; cbn; auto.
+  destruct l; cbn; [destruct i; reflexivity|]. apply IH.
+Qed.
+
+Lemma nth_write_at (c : list byte) off bs i d0 :
+  off + length bs <= length c ->
+  nth i (write_at c off bs) d0 =
+  if Nat.leb off i && Nat.ltb i (off + length bs) then nth (i - off) bs d0 else nth i c d0.
+Proof.
+  intros H. unfold write_at.
+  assert (Lf : length (firstn off c) = off) by (rewrite firstn_length; lia).
+  destruct (Nat.leb off i) eqn:E1; cbn [andb].
+  - apply Nat.leb_le in E1. rewrite app_nth2; rewrite Lf; [|lia].
+    destruct (Nat.ltb i (off + length bs)) eqn:E2.
+    + apply Nat.ltb_lt in E2. rewrite app_nth1; [reflexivity|lia].
+    + apply Nat.ltb_ge in E2. rewrite app_nth2; [|lia].
+      rewrite nth_skipn_add. f_equal. lia.
+  - apply Nat.leb_gt in E1. rewrite app_nth1; [|lia]. apply nth_firstn_lt. lia.
+Qed.
+
+Lemma rte_min_le cs : forall m, rte_min cs m <= m /\ (forall c, In c cs -> rte_min cs m <= fst c).
+Proof.
+  induction cs as [|c0 r IH]; intros m; cbn.
+  - split; [lia|]. intros c [].
+  - destruct (IH (Nat.min m (fst c0))) as [A B]. split; [lia|].
+    intros c [<-|H]; [lia|]. apply B. exact H.
+Qed.
+
+Lemma rte_max_ge cs : forall m, m <= rte_max cs m /\ (forall c, In c cs -> fst c + length (snd c) <= rte_max cs m).
+Proof.
+  induction cs as [|c0 r IH]; intros m; cbn.
+  - split; [lia|]. intros c [].
+  - destruct (IH (Nat.max m (fst c0 + length (snd c0)))) as [A B]. split; [lia|].
+    intros c [<-|H]; [lia|]. apply B. exact H.
+Qed.
+
+Lemma rte_bounds cs c : In c cs -> rte_start cs <= fst c /\ fst c + length (snd c) <= rte_end cs.
+Proof.
+  intros H. split.
+  - destruct cs as [|c0 r]; [destruct H|]. cbn. destruct (rte_min_le r (fst c0)) as [A B].
+    destruct H as [<-|H]; [exact A|apply B; exact H].
+  - apply (rte_max_ge cs 0). exact H.
+Qed.
+
+Lemma repeat_b_length b n : length (repeat_b b n) = n.
+Proof. induction n; cbn; auto. Qed.
+
+Definition chunk_of (d : list byte) (c : chunk) : Prop :=
+  fst c + length (snd c) <= length d /\ forall j, j < length (snd c) -> nth j (snd c) 0%N = nth (fst c + j) d 0%N.
+
+Definition covers (cs : list chunk) (p : nat) : Prop :=
+  exists c, In c cs /\ fst c <= p < fst c + length (snd c).
+
+(* folding the copies: length kept, every covered position holds the stream's byte *)
+Lemma assemble_fold d s L : forall cs buf,
+  length buf = L ->
+  (forall c, In c cs -> chunk_of d c /\ s <= fst c /\ fst c + length (snd c) <= s + L) ->
+  let res := fold_left (fun buf c => write_at buf (fst c - s) (snd c)) cs buf in
+  length res = L /\
+  (forall i, i < L -> (covers cs (s + i) -> nth i res 0%N = nth (s + i) d 0%N) /\
+                      (~ covers cs (s + i) -> nth i res 0%N = nth i buf 0%N)).
+Proof.
+  induction cs as [|c r IH]; intros buf Hl Hc; cbn.
+  - split; auto. intros i Hi. split; [intros (c & [] & _)|reflexivity].
+  - destruct (Hc c (or_introl eq_refl)) as ((Cb & Cn) & C1 & C2).
+    assert (Hfit : (fst c - s) + length (snd c) <= length buf) by lia.
+    assert (Hl1 : length (write_at buf (fst c - s) (snd c)) = L) by (rewrite write_at_length; auto).
+    destruct (IH (write_at buf (fst c - s) (snd c)) Hl1) as [A B].
+    { intros c' H'. apply Hc. right. exact H'. }
+    split; [exact A|]. intros i Hi. destruct (B i Hi) as [B1 B2].
+    assert (Hn : nth i (write_at buf (fst c - s) (snd c)) 0%N =
+                 if Nat.leb (fst c - s) i && Nat.ltb i (fst c - s + length (snd c))
+                 then nth (i - (fst c - s)) (snd c) 0%N else nth i buf 0%N)
+      by (apply nth_write_at; exact Hfit).
+    assert (Dec : covers r (s + i) \/ ~ covers r (s + i)).
+    { clear -r. induction r as [|c1 r1 IHr].
+      - right. intros (c & [] & _).
+      - destruct (le_lt_dec (fst c1) (s + i)) as [L1|L1];
+          [destruct (lt_dec (s + i) (fst c1 + length (snd c1))) as [L2|L2]|].
+        + left. exists c1. split; [left; reflexivity|lia].
+        + destruct IHr as [(c & I & R)|N]; [left; exists c; split; [right; exact I|exact R]|].
+          right. intros (c & [<-|I] & R); [lia|]. apply N. exists c. auto.
+        + destruct IHr as [(c & I & R)|N]; [left; exists c; split; [right; exact I|exact R]|].
+          right. intros (c & [<-|I] & R); [lia|]. apply N. exists c. auto. }
+    split.
+    + intros (c' & [<-|I'] & R).
+      * destruct Dec as [Cv|Ncv]; [apply B1; exact Cv|].
+        rewrite (B2 Ncv), Hn.
+        assert (E1 : Nat.leb (fst c - s) i = true) by (apply Nat.leb_le; lia).
+        assert (E2 : Nat.ltb i (fst c - s + length (snd c)) = true) by (apply Nat.ltb_lt; lia).
+        rewrite E1, E2. cbn [andb]. rewrite Cn; [|lia]. f_equal. lia.
+      * apply B1. exists c'. auto.
+    + intros Ncv.
+      assert (Nr : ~ covers r (s + i)) by (intros (c' & I & R); apply Ncv; exists c'; split; [right; exact I|exact R]).
+      rewrite (B2 Nr), Hn.
+      destruct (Nat.leb (fst c - s) i) eqn:E1; cbn [andb]; [|reflexivity].
+      destruct (Nat.ltb i (fst c - s + length (snd c))) eqn:E2; [|reflexivity].
+      apply Nat.leb_le in E1. apply Nat.ltb_lt in E2.
+      exfalso. apply Ncv. exists c. split; [left; reflexivity|lia].
+Qed.
+
+Theorem read_to_end_exact d cs :
+  cs <> [] ->
+  (forall c, In c cs -> chunk_of d c) ->
+  (forall p, rte_start cs <= p < rte_end cs -> covers cs p) ->
+  read_to_end_assemble cs = sub_list d (rte_start cs) (rte_end cs - rte_start cs).
+Proof.
+  intros Hne Hch Hcov. unfold read_to_end_assemble.
+  set (s := rte_start cs). set (e := rte_end cs).
+  assert (He : e <= length d).
+  { destruct cs as [|c0 r]; [congruence|].
+    unfold e, rte_end. clear -Hch.
+    assert (G : forall l m, m <= length d -> (forall c, In c l -> chunk_of d c) -> rte_max l m <= length d).
+    { induction l as [|c l IH]; intros m Hm Hc; cbn; auto.
+      apply IH; [|intros c' H'; apply Hc; right; exact H'].
+      destruct (Hc c (or_introl eq_refl)) as [Hb _]. lia. }
+    apply G; [lia|exact Hch]. }
+  destruct (Nat.leb e s) eqn:Les.
+  - apply Nat.leb_le in Les. replace (e - s) with 0 by lia. unfold sub_list. reflexivity.
+  - apply Nat.leb_gt in Les.
+    pose proof (assemble_fold d s (e - s) cs (repeat_b 0%N (e - s)) (repeat_b_length _ _)) as F.
+    destruct F as [Fl Fn].
+    { intros c Hc. split; [apply Hch; exact Hc|]. pose proof (rte_bounds cs c Hc). fold s e in H. lia. }
+    apply nth_ext with (d := 0%N) (d' := 0%N).
+    + rewrite Fl. unfold sub_list. rewrite firstn_length, skipn_length. lia.
+    + intros i Hi. rewrite Fl in Hi. destruct (Fn i Hi) as [F1 _].
+      rewrite F1; [|apply Hcov; fold s e; lia].
+      unfold sub_list. rewrite nth_firstn_lt; [|exact Hi]. rewrite nth_skipn_add. reflexivity.
+Qed.
